@@ -578,6 +578,8 @@ def run_instance(inst, tier='quick', seed=0):
                 ob['verdict'] = 'undecided'
             ob['reasons'].append(info.get('detail', 'unknown'))
         ob['covered'] = covered
+        if not covered and carve and ob['verdict'] == 'proved':
+            ob['verdict'] = 'carved-out'      # entirely inside a known-finding region: nothing is claimed
         ob['time_s'] = round(time.time() - t0, 3)
         results.append(ob)
     meta = dict(instance=inst.id, target=unit.target, paths=len(paths), explore_s=round(explore_s, 3),
